@@ -115,6 +115,8 @@ pub struct Entry {
     pub rule: &'static str,
     pub assumptions: &'static [&'static str],
     pub run: fn(&[u32], Tier, &mut Ctx) -> CaseOut,
+    /// generate the case only (no analyzer code runs): {"case", "shown"}
+    pub gen_only: fn(&[u32], Tier) -> Option<Value>,
     pub replay: fn(&Value, &mut Ctx) -> Result<Vec<Violation>, String>,
     pub enumerate: fn(Tier, &mut Ctx) -> (u64, Vec<(Value, Vec<Violation>)>),
     /// Extra part run once by the parent process (CLI-level checks etc.).
@@ -172,6 +174,10 @@ pub fn entry<P: Prop>(
             }
         }
     }
+    fn gen_only<P: Prop>(ch: &[u32], tier: Tier) -> Option<Value> {
+        let mut c = Choices::new(ch);
+        P::gen(&mut c, tier).map(|case| json!({"case": serde_json::to_value(&case).unwrap_or(Value::Null), "shown": P::show(&case)}))
+    }
     fn replay<P: Prop>(v: &Value, ctx: &mut Ctx) -> Result<Vec<Violation>, String> {
         let case: P::Case = serde_json::from_value(v.clone()).map_err(|e| e.to_string())?;
         Ok(P::check(&case, ctx))
@@ -199,6 +205,7 @@ pub fn entry<P: Prop>(
         rule,
         assumptions,
         run: run::<P>,
+        gen_only: gen_only::<P>,
         replay: replay::<P>,
         enumerate: enumerate::<P>,
         extra: None,
@@ -982,12 +989,9 @@ fn handle_worker_death(
         }
         len /= 2;
     }
-    let mut ctx = Ctx::default();
-    let mut c = Choices::new(&best);
-    let _ = (&mut ctx, &mut c);
     let f = Failure {
         choices: best.clone(),
-        case: json!({"case": Value::Null, "shown": {"choices_only": true}}),
+        case: (e.gen_only)(&best, tier).unwrap_or_else(|| json!({"case": Value::Null, "shown": {"choices_only": true}})),
         violations: vec![Violation::new(format!(
             "analyzer process died on this case ({how}); replay with `rvverif one {} {} <choices.json>`",
             e.id,
